@@ -131,7 +131,8 @@ def run_case(case):
                     if ctx["id"] is None:
                         ctx["id"] = d["id"]
                     meta = (d.get("params") or {}).get("_meta") or {}
-                    ctx["tok"] = meta.get("progressToken")
+                    # the request's own progress token exists only when a callback was supplied
+                    ctx["tok"] = meta.get("progressToken") if case.get("progress") else None
 
         token = CancellationToken() if (case.get("hasToken") or case.get("pre") or case.get("cancelAt") is not None) else None
         if token is not None and case.get("pre"):
@@ -219,7 +220,7 @@ def model_line(case, obs, poll_ticks=P_TICKS_DEFAULT):
         "pre": bool(case.get("pre")),
         "cancelAt": case.get("cancelAt"),
         "token": ({"s": ctx["tok"]} if isinstance(ctx["tok"], str) else {"i": ctx["tok"]}) if ctx["tok"] is not None else None,
-        "eventsFirst": case.get("tie", "events") == "events",
+        "eventsFirst": case.get("tie", "events") in ("events", "io"),
         "ev": [[a, resolved_event(ev, ctx)] for a, ev in case["ev"]],
     }
 
